@@ -31,6 +31,64 @@ func sortedKeysOf[M ~map[string]V, V any](m M) []string {
 	return ks
 }
 
+// randomOptions draws one choice in every dimension of the producer's option space (dictionary limit / initial index / reset
+// threshold / zstd / span order / attribute orders).
+func randomOptions(r *Rng) ([]cfgpkg.Option, string) {
+	var options []cfgpkg.Option
+	var names []string
+	add := func(name string, o cfgpkg.Option) {
+		names = append(names, name)
+		if o != nil {
+			options = append(options, o)
+		}
+	}
+	switch r.Intn(6) {
+	case 0:
+		add("WithNoDictionary", cfgpkg.WithNoDictionary())
+	case 1:
+		add("WithUint8LimitDictIndex", cfgpkg.WithUint8LimitDictIndex())
+	case 2:
+		add("WithUint16LimitDictIndex", cfgpkg.WithUint16LimitDictIndex())
+	case 3:
+		add("WithUint32LimitDictIndex", cfgpkg.WithUint32LimitDictIndex())
+	}
+	switch r.Intn(4) {
+	case 0:
+		add("WithUint8InitDictIndex", cfgpkg.WithUint8InitDictIndex())
+	case 1:
+		add("WithUint16InitDictIndex", cfgpkg.WithUint16InitDictIndex())
+	}
+	if r.Bool() {
+		thr := []float64{0, 0.3, 1, 5}[r.Intn(4)]
+		add(fmt.Sprintf("DictResetThreshold(%v)", thr), cfgpkg.WithDictResetThreshold(thr))
+	}
+	switch r.Intn(3) {
+	case 0:
+		add("WithZstd", cfgpkg.WithZstd())
+	case 1:
+		add("WithNoZstd", cfgpkg.WithNoZstd())
+	}
+	if r.Bool() {
+		ks := sortedKeysOf(cfgpkg.OrderSpanByVariants)
+		k := ks[r.Intn(len(ks))]
+		add("OrderSpanBy("+k+")", cfgpkg.WithOrderSpanBy(cfgpkg.OrderSpanByVariants[k]))
+	}
+	if r.Bool() {
+		ks := sortedKeysOf(cfgpkg.OrderAttrs16ByVariants)
+		k := ks[r.Intn(len(ks))]
+		add("OrderAttrs16By("+k+")", cfgpkg.WithOrderAttrs16By(cfgpkg.OrderAttrs16ByVariants[k]))
+	}
+	if r.Bool() {
+		ks := sortedKeysOf(cfgpkg.OrderAttrs32ByVariants)
+		k := ks[r.Intn(len(ks))]
+		add("OrderAttrs32By("+k+")", cfgpkg.WithOrderAttrs32By(cfgpkg.OrderAttrs32ByVariants[k]))
+	}
+	if len(names) == 0 {
+		return nil, "default"
+	}
+	return options, strings.Join(names, "+")
+}
+
 func runOptions(o opts, out *Output) {
 	out.Imports = "From Verif Require Import Base.ListX Obf.Obfuscate Otlp.Equiv."
 	r := NewRng(o.seed)
@@ -106,7 +164,15 @@ func runOptions(o opts, out *Output) {
 		for b := 0; b < nb; b++ {
 			n := 1 + r.Intn(6)
 			data := genAnyN(g, r, sig, n)
-			if r.Chance(leanPct) {
+			if c%4 == 2 && b == 1 {
+				// every dictionary column of the main record grows past 255 entries in this one batch
+				data = distinctBatch(sig, 300, 1000)
+			} else if r.Chance(12) {
+				// a burst of a few hundred items with fresh strings in every column: several dictionary columns of one record
+				// cross an index-width boundary in the same batch
+				wg := &OGen{r: r.Fork(), Wide: true}
+				data = genAnyN(wg, r, sig, 300+r.Intn(200))
+			} else if r.Chance(leanPct) {
 				// dictionary pressure with lean items: unique names, 90-330 per batch (crossing 255 within a batch or over the
 				// history), repeated `rep` times (reset regime) or not (overflow regime)
 				data = leanBatch(sig, 90+r.Intn(240), 1+r.Intn(3)*r.Intn(2), &leanBase)
